@@ -4,6 +4,7 @@ import (
 	"bytes"
 	"encoding/json"
 	"fmt"
+	"math"
 	"net/http"
 	"net/http/httptest"
 	"net/url"
@@ -238,6 +239,76 @@ func c17Scenarios(c *fw.Ctx) []*Scenario {
 					if ok, j := valsEqual(solo[i].Vals, res[i].Vals); !ok || res[i].From != solo[i].From || res[i].Err != solo[i].Err {
 						return "C17/" + name + "/result-differs-from-solo", fmt.Sprintf("fetch %d (archive %d, window %d..%d) returned %v, alone it returns %v (first difference at %d)", i, q.id, q.from, q.until, res[i].Vals, solo[i].Vals, j), "differs"
 					}
+				}
+				return "", "", "equal"
+			}
+			return bodies, judge
+		}})
+	}
+
+	// (F'') raw dumps and fetches on one shared handle: every read call of the handle, not only Fetch
+	{
+		name := "F-raw-dumps"
+		out = append(out, &Scenario{Name: name, Bound: b3, Make: func() ([]func(), func(*vrt.Sched) (string, string, string)) {
+			vrt.SetPagesize(16)
+			rings := c17Rings(l, 0)
+			p := filepath.Join(root, "rawshared.wsp")
+			(&BFile{L: l, Rings: rings}).Write(p)
+			phys := wsp.FromRings(l, rings, nil)
+			db, err := wt.Open(p)
+			raws := make([]wt.Points, 2)
+			rerrs := make([]error, 2)
+			var fo FetchObs
+			bodies := []func(){
+				func() {
+					if db != nil {
+						r, e := db.GetAllRawUnsortedPoints(0)
+						hmu.Lock()
+						raws[0], rerrs[0] = r, e
+						hmu.Unlock()
+					}
+				},
+				func() {
+					if db != nil {
+						r, e := db.GetAllRawUnsortedPoints(1)
+						hmu.Lock()
+						raws[1], rerrs[1] = r, e
+						hmu.Unlock()
+					}
+				},
+				func() {
+					if db != nil {
+						o := RealFetch(db, 0, Window{c17Now - 7, c17Now}, c17Now)
+						hmu.Lock()
+						fo = o
+						hmu.Unlock()
+					}
+				},
+			}
+			judge := func(s *vrt.Sched) (string, string, string) {
+				if db != nil {
+					db.Close()
+				}
+				if err != nil {
+					return "", "", "open-failed"
+				}
+				if s.Deadlock || len(s.Panics) > 0 || s.Diverged != "" {
+					return "", "", "aborted"
+				}
+				for a := 0; a < 2; a++ {
+					if rerrs[a] != nil || len(raws[a]) != len(phys.Slots[a]) {
+						return "C17/" + name + "/result-differs-from-solo", fmt.Sprintf("raw dump of archive %d: %d points, error %v; alone: %d points", a, len(raws[a]), rerrs[a], len(phys.Slots[a])), "differs"
+					}
+					for i, pt := range raws[a] {
+						sl := phys.Slots[a][i]
+						if uint32(pt.Time) != sl.T || math.Float64bits(float64(pt.Value)) != math.Float64bits(sl.V) {
+							return "C17/" + name + "/result-differs-from-solo", fmt.Sprintf("raw dump of archive %d, slot %d: (%d, %v); alone it is (%d, %v)", a, i, pt.Time, pt.Value, sl.T, sl.V), "differs"
+						}
+					}
+				}
+				exp, _ := ExpRead(l, rings, 0, c17Now-7, c17Now, c17Now)
+				if ok, j := valsEqual(exp[0].Vals, fo.Vals); !ok {
+					return "C17/" + name + "/result-differs-from-solo", fmt.Sprintf("the fetch next to two raw dumps returned %v, alone %v (first difference at %d)", fo.Vals, exp[0].Vals, j), "differs"
 				}
 				return "", "", "equal"
 			}
